@@ -61,7 +61,7 @@ PROPS["C07"] = {
     "theorems": [
         "GstProofs.C07.inv_sound", "GstProofs.C07.init", "GstProofs.C07.step_full", "GstProofs.C07.reach_full",
         "GstProofs.C07.reach_auto", "GstProofs.C07.step_partial", "GstProofs.C07.reach_partial",
-        "GstProofs.C07.delete_frame", "GstProofs.C07.counts", "GstProofs.C07.setRow_frame", "GstProofs.C07.setArray_frame",
+        "GstProofs.C07.delete_frame", "GstProofs.C07.counts", "GstProofs.C07.setRow_frame", "GstProofs.C07.setArray_frame", "GstProofs.C07.setRow_readRow",
         "GstProofs.Db.deleteByUid_inv", "GstProofs.Db.setLocatorByUID_inv", "GstProofs.Db.setLocatorsByUIDs_inv",
         "GstProofs.Db.switchLoc_inv", "GstProofs.Db.fixNewName_spec", "GstProofs.Db.fixNames_spec",
         "GstProofs.Db.rename_inv", "GstProofs.Db.addColumns_inv", "GstProofs.Db.admissible_of_auto",
@@ -69,7 +69,7 @@ PROPS["C07"] = {
     "harnesses": ["vh_c07"],
     "level": "proof",
     "technique": "Lean 4 state-machine model of the Db table (uid map, names, columns, role table) with a decidable consistency invariant proved equivalent to its Prop form; invariant preservation proved for every one of the 23 operations (21 edits, whole-row write and read) and, by induction over the history, for every reachable state (side condition: explicit role numbers leave no gap - its negation is known finding F4); every generated history is replayed on the real Db/DbGrid and both the model state and the invariant (evaluated on the library's own state) are compared after each operation",
-    "level_text": "Proof: from a consistent table every accepted editing operation (column addition with name de-duplication, deletion by uid/index/name/role, the four renamings, the five role assignments, role clearing and switching, sample addition/deletion, cell and whole-row value assignment) yields a consistent table, for all states and arguments, hence all histories; a value assignment changes exactly the addressed cells (setArray_frame, setRow_frame: every other cell keeps its value); the side condition on explicit role numbers is exactly the documented known finding F4 and is vacuous for automatic role numbers. The model is tied to Db/DbGrid op by op on generated histories (full observable state compared, and the decidable invariant run on the library's state).",
+    "level_text": "Proof: from a consistent table every accepted editing operation (column addition with name de-duplication, deletion by uid/index/name/role, the four renamings, the five role assignments, role clearing and switching, sample addition/deletion, cell and whole-row value assignment) yields a consistent table, for all states and arguments, hence all histories; a value assignment changes exactly the addressed cells (setArray_frame, setRow_frame: every other cell keeps its value) and a row written is the row read back (setRow_readRow); the side condition on explicit role numbers is exactly the documented known finding F4 and is vacuous for automatic role numbers. The model is tied to Db/DbGrid op by op on generated histories (full observable state compared, and the decidable invariant run on the library's state).",
     "level_note": "Trusted: Lean kernel + 3 standard axioms; the hand-written state-machine (validated op by op against the library on every run); names restricted to the grammar [a-z0-9.-] in the harness (names are regular expressions in the library: known finding F32); termination of the renaming loops is by fuel in the model (a fuel exhaustion would show as a model/library difference, never observed).",
     "rule": "random histories (1-40 operations among 23 public operations incl. setArrayBySample/getArrayBySample, ~10% invalid arguments: bad indices, dead uids, unknown names, duplicate names, UNKNOWN locator) on Db and DbGrid; after each operation the full observable state (names, uids, role table, values, counts, and every designation: uid->col, col->role, name->col) is compared with the model and checked by the invariant; for value assignments the library's states before and after are also compared cell by cell (untouched cells unchanged, written cells hold the value). distinct = distinct history text; trivial = histories of fewer than 3 operations",
     "trivial": lambda line: line.count(" ; ") < 3,
@@ -189,11 +189,12 @@ PROPS["C12"] = {
         "GstProofs.C12.pairs", "GstProofs.C12.innerLoop_all", "GstProofs.C12.translate_invariant",
         "GstProofs.C12.var_symm", "GstProofs.C12.subL_comm_sq", "GstProofs.C12.lag_sound", "GstProofs.C12.lag_complete",
         "GstProofs.C12.lag_breaks_sound", "GstProofs.C12.lag_breaks_complete", "GstProofs.C12.lag_breaks_outside",
+        "GstProofs.C12.classes_disjoint", "GstProofs.C12.lag_breaks_iff",
     ],
     "harnesses": ["vh_c12"],
     "level": "proof",
     "technique": "Lean 4 declarative pairwise definition of the experimental (cross-)variogram decided exactly on squared quantities + transcription of the pair loop proved to enumerate every pair once; symmetry and translation invariance as theorems; exact/2^-36 differential correspondence with Vario::computeFromDb on generated data sets and direction specifications",
-    "level_text": "Partial proof: pair enumeration of the general algorithm, the exact characterisation of the lag assigned to a pair, symmetry in the variables and translation invariance are theorems; the numbers of pairs (weights), mean distances and variogram values of the library are compared with the pairwise definition evaluated in exact rational arithmetic for each lag (pair weights exactly; values to 2^-36). The VARIOGRAM, ORDER4, POISSON, MADOGRAM and RODOGRAM estimators of the general (non-grid) algorithm are covered (square roots by a rational Newton iteration, compared to 2^-36), with regular lags and irregular classes; the mean of each variable reported by the variogram is compared with the weighted mean of the model.",
+    "level_text": "Partial proof: pair enumeration of the general algorithm, the exact characterisation of the lag assigned to a pair (regular lags: lag_sound / lag_complete; irregular classes with increasing breaks: lag_breaks_iff, the classes being disjoint), symmetry in the variables and translation invariance are theorems; the numbers of pairs (weights), mean distances and variogram values of the library are compared with the pairwise definition evaluated in exact rational arithmetic for each lag (pair weights exactly; values to 2^-36). The VARIOGRAM, ORDER4, POISSON, MADOGRAM and RODOGRAM estimators of the general (non-grid) algorithm are covered (square roots by a rational Newton iteration, compared to 2^-36), with regular lags and irregular classes; the mean of each variable reported by the variogram is compared with the weighted mean of the model.",
     "level_note": "Trusted: Lean kernel + 3 standard axioms; sqrt enters only the comparison of the mean distance (rational Newton enclosure), never a pair/lag decision; configurations with a lag / cone / cylinder decision within 2^-30 of its boundary are skipped and counted; Db::getWeight semantics (undefined weight = 1) is followed.",
     "rule": "random data sets (1-3D, 3-30 samples on dyadic lattices: regular, random, clustered; 1-3 variables with undefined cells; optional weights and selection), one direction with 2-8 lags of step odd/16 (a quarter of the configurations: irregular classes given by breaks, first break 0 or positive, sometimes a duplicated location), distance tolerance in {1/2,1/4,3/8}, angular tolerance in {90,70,50,35,20} degrees, lattice direction vectors, optional bench / cylinder; estimator drawn among variogram / order-4 / Poisson / madogram / rodogram; every (ivar,jvar) pair; plus 60 (quick) / 600 (thorough) small grids (2-3 D, undefined cells, optional weights and selection): grid-specialised algorithm along a node increment (axis, diagonal, knight move) against the general algorithm along the same direction with tight tolerances, pair weights exactly, distances and values to 2^-36. distinct = distinct request line; trivial = fewer than 3 active samples",
     "trivial": lambda line: False,
@@ -417,7 +418,7 @@ PROPS["C17"] = {
     "module": "GstProofs.Props.C17",
     "theorems": [
         "GstProofs.C17.truncated_psd", "GstProofs.C17.trunc_nonneg", "GstProofs.C17.clamp_within", "GstProofs.C17.clamp_idem",
-        "GstProofs.C17.decode_encode", "GstProofs.C17.encode_injective", "GstProofs.C17.encode_range",
+        "GstProofs.C17.decode_encode", "GstProofs.C17.encode_injective", "GstProofs.C17.encode_range", "GstProofs.C17.encode_decode",
         "GstProofs.C17.cget_sound", "GstProofs.C17.cget_complete", "GstProofs.C17.equal_answers",
         "GstProofs.C17.affect_bounds", "GstProofs.C17.mergeLower_ge", "GstProofs.C17.mergeLower_ge_new",
         "GstProofs.C17.mergeUpper_le", "GstProofs.C17.mergeUpper_le_new",
